@@ -10,7 +10,7 @@
 //   emit     line: hex(program) [TAB hex(args source)]...
 //   output : fields joined by " | ":
 //     VAL <coq store> <coq value> | PORT 0/1 | SRC <hex> | AST1 <coq expr>/REJECT
-//     | AST2 <coq expr>/NOFUN | SRC2 <hex>/- | R <orig>/<reloaded>/<re-reloaded> ...
+//     | AST2 <coq expr>/NOFUN | SRC2 <hex>/- | SRC3 <hex>/- | R <orig>/<reloaded>/<re-reloaded>/<third re-emission> ...
 //   or  ERRPROG <why>
 //
 //   lit      line: hex(expression source)  -> value as model term | source text of the value
@@ -255,6 +255,10 @@ fn emit_line(line: &str) -> String {
     out.push(format!("SRC2 {}", src2.as_ref().map(|s| hex(s.as_bytes())).unwrap_or_else(|| "-".into())));
     // third generation: emitted again from the reloaded function, reloaded again
     let sess3 = src2.as_ref().and_then(|s| fresh_with_function(s));
+    // fourth generation (re-emission chain of length 3): emitted from the third, reloaded again
+    let src3 = sess3.as_ref().and_then(|s3| input_f(s3).and_then(|v3| function_source(&v3, &s3.heap.borrow())));
+    let sess4 = src3.as_ref().and_then(|s| fresh_with_function(s));
+    out.push(format!("SRC3 {}", src3.as_ref().map(|s| hex(s.as_bytes())).unwrap_or_else(|| "-".into())));
     // the original is called through a fresh root name bound directly (no renaming of the cell)
     sess.bindings.insert("f__".to_string(), fv);
     for a in &argsrcs {
@@ -267,7 +271,11 @@ fn emit_line(line: &str) -> String {
             Some(s3) => eval_expr_text(s3, &format!("inputs.f({})", a)),
             None => "NOSESSION".into(),
         };
-        out.push(format!("R {}/{}/{}", r1, r2, r3));
+        let r4 = match &sess4 {
+            Some(s4) => eval_expr_text(s4, &format!("inputs.f({})", a)),
+            None => "NOSESSION".into(),
+        };
+        out.push(format!("R {}/{}/{}/{}", r1, r2, r3, r4));
     }
     out.join(" | ")
 }
